@@ -51,10 +51,12 @@ pub fn nesting_ok(d: &str) -> bool {
 
 pub fn run(n: usize, rng: &mut Rng, rep: &mut Report) {
     let mut cases: Vec<(bool, String)> = vec![];
-    for s in doc::SPEC.iter() { if !s.contains('\t') { cases.push((false, s.clone())); cases.push((true, s.clone())); } }
+    for (i, s) in doc::SPEC.iter().enumerate() { if !s.contains('\t') { cases.push((false, s.clone())); cases.push((true, s.clone())); if i % 4 == 0 && !s.contains('\r') { cases.push((i % 8 == 0, s.replace('\n', "\r\n"))); } } }
     for _ in 0..n {
         let d = doc::any_doc(rng).replace('\t', " ");
         if !nesting_ok(&d) { continue; }
+        // the relations hold whatever terminates the lines
+        let d = match rng.below(8) { 0 | 1 => d.replace("\r\n", "\n").replace('\n', "\r\n"), 2 => d.replace("\r\n", "\n").replace('\n', "\r"), _ => d };
         cases.push((rng.chance(1, 2), d));
     }
     let res = crate::run::big_stack(move || {
